@@ -129,6 +129,9 @@ theorem caseOfKey_markerFree (key : Int) (cs : List MuxCaseD) (h : casesMarkerFr
     · rw [if_neg hk] at hc
       exact ih h.2 hc
 
+theorem markerFree_valueParam (n : String) (bp bit : Option Nat) (d : Dop) (dflt : Option PVal) :
+    (Param.mk n bp bit (.value d dflt)).markerFree = d.markerFree := rfl
+
 theorem markerFree_mux (bp sbp : Nat) (sbit : Option Nat) (sd : Dop) (cases : List MuxCaseD) (dflt : Option (String × Option Dop)) :
     (Dop.mux bp sbp sbit sd cases dflt).markerFree =
       (sd.markerFree && casesMarkerFree cases && (match dflt with | some (_, some d) => d.markerFree | _ => true)) := by
@@ -179,9 +182,11 @@ theorem sim_decode_all (fuel : Nat) :
         unfold decodeDop
         repeat (first
           | exact ihDop _ hsd
-          | exact ihParam _ (by simp [Param.markerFree, PKind.markerFree, hsd])
+          | exact ihParam _ ((markerFree_valueParam _ _ _ _ _).trans hsd)
           | exact ihDop _ (caseOfKey_markerFree _ _ hcs _ (by assumption) _ (by assumption))
           | exact ihDop _ (by simp_all)
+          | exact ihParam _ ((markerFree_valueParam _ _ _ _ _).trans (caseOfKey_markerFree _ _ hcs _ (by assumption) _ (by assumption)))
+          | exact ihParam _ ((markerFree_valueParam _ _ _ _ _).trans (by simp_all))
           | sim_step | split | dsimp only
           | (simp only [Nat.succ_eq_add_one, Nat.add_right_cancel_iff] at *; subst_vars))
       | _ =>
